@@ -908,14 +908,16 @@ theorem readAll_honest (H : Bytes → Bytes) (d : Desc) (content : Bytes)
     readAll H d true [content] = .eof content := by
   unfold readAll
   have hs : d.size.toNat = content.length := by omega
-  simp [BlobReader.readAll, hs, hH]
+  have hn : ¬ d.size < 0 := by omega
+  simp [BlobReader.readAll, hs, hH, hn]
 
 /-- … and never cleanly otherwise: a body that is not what the descriptor says ends in an error. -/
 theorem readAll_dishonest (H : Bytes → Bytes) (d : Desc) (content : Bytes) (h0 : 0 ≤ d.size)
     (h : (content.length : Int) ≠ d.size ∨ H content ≠ d.digest) :
     (readAll H d true [content]).clean = false := by
   unfold readAll
-  simp only [BlobReader.readAll, List.nil_append]
+  have hn : ¬ d.size < 0 := by omega
+  simp only [hn, ↓reduceIte, BlobReader.readAll, List.nil_append]
   split
   · rfl
   · by_cases hl : content.length ≠ d.size.toNat
@@ -930,7 +932,15 @@ theorem readAll_unverified (H : Bytes → Bytes) (d : Desc) (content : Bytes) (h
     readAll H d false [content] = .eof content := by
   unfold readAll
   have hs : ¬ content.length > d.size.toNat := by omega
-  simp [BlobReader.readAll, hs]
+  have hn : ¬ d.size < 0 := by omega
+  simp [BlobReader.readAll, hs, hn]
+
+/-- F36: a descriptor with a negative size (a `Content-Range` total the server made up) never reads cleanly,
+verified or not, whatever arrives — not even nothing. -/
+theorem readAll_negative_size (H : Bytes → Bytes) (d : Desc) (v : Bool) (chunks : List Bytes) (hn : d.size < 0) :
+    (readAll H d v chunks).clean = false := by
+  unfold readAll
+  simp [hn, BlobReader.Res.clean]
 
 
 /-! ### Lists: the Link header and the request it leads to -/
